@@ -105,7 +105,9 @@ PROPS = {
         module="Prom.Props.C01",
         areas=[dict(area="catomc", quick=1500, thorough=80000, classes=["not-linearizable", "stuck", "harness-panic"]),
                dict(area="cvec", quick=800, thorough=40000, classes=["update-lost", "not-linearizable", "stuck", "harness-panic"]),
-               dict(area="local", quick=600, thorough=20000, classes=["counter-handover", "counter-pending", "harness-panic"], mask=[(only_prefix("shared="), None)])],
+               # `shared=`: the counter world; `n=`: the vector world (a local vector's flush must reach the child the shared vector exports)
+               dict(area="local", quick=600, thorough=20000, classes=["counter-handover", "counter-pending", "vector-handover", "harness-panic"],
+                    mask=[(lambda x: x if x.startswith("shared=") or x.startswith("n=") else "-", None)])],
         rule="case = 2-3 real threads x 1-3 calls (inc, inc_by, get, reset, local flush) on one shared Counter / IntCounter, or get-or-create + inc on IntCounterVec children, run under the deterministic scheduler "
              "(random schedules with stickiness 0/50/85 %, up to 12 spurious compare-exchange failures; float programs also with amounts of k*2^-70, far below f64::EPSILON); the observed trace of atomic operations is replayed by the Lean machine; "
              "plus sequential histories of local counters (inc, flush, reset, clone, shared reset) from the `local` area: the shared counter must equal its direct updates plus the flushed amounts, each exactly once; "
